@@ -25,7 +25,7 @@ var routeRuleAtoms = []string{
 var routeMethods = []string{"GET", "POST", "OPTIONS", "get", "DELETE", "PUT"}
 var routePaths = []string{
 	"/", "/foo/secret", "/foo/a.js", "/foo/secret.js", "/api/v1", "/pub", "/public/x", "/a", "/a!=b", "/health", "/healthz",
-	"/s.css", "/x=y", "/x", "/static/app.js", "/foo", "/a/c", "/b/c", "/c/c", "/zzz", "/foo/x%2Ejs", "/api%2Fv1", "/foo/%2e%2e/x.js",
+	"/s.css", "/x=y", "/x", "//api/v1", "//foo/a.js", "//x/foo/a.js", "/static/app.js", "/foo", "/a/c", "/b/c", "/c/c", "/zzz", "/foo/x%2Ejs", "/api%2Fv1", "/foo/%2e%2e/x.js",
 }
 var routeQueries = []string{
 	"", "x=.js", "a=/api/", "next=/pub", "q=^/a!=b$", "f=x.css", "x=/static/", "/health", "a=1&b=/foo/a.js", "%2Ejs", ".js", "=/", "!=", "GET=^/foo",
